@@ -149,10 +149,26 @@ func verifC10_Retry() {
 		lastErr = errAttempt
 		return errAttempt
 	}
+	// the client may be gone before the first attempt starts
+	preCancelled := verifBool("clientCancelsBeforeTheFirstAttempt")
+	if preCancelled {
+		cancel()
+	}
 	err := w.Wrap(handler)(ctx)
 
-	verifAssert(attempts >= 1 && attempts <= p.MaxAttempts, "at-most-maxAttempts")
-	verifAssert(err == lastErr, "outcome-of-the-last-attempt")
+	verifAssert(attempts <= p.MaxAttempts, "at-most-maxAttempts")
+	if attempts == 0 {
+		// nothing was attempted (only conceivable for a request cancelled beforehand): that
+		// is never reported as a success
+		verifAssert(preCancelled && err != nil, "no-success-without-an-attempt")
+	} else {
+		verifAssert(err == lastErr, "outcome-of-the-last-attempt")
+	}
+	if preCancelled {
+		verifCover("cancelled-before-the-first-attempt")
+		cancel()
+		return
+	}
 	if err == nil {
 		verifCover("succeeded")
 		if attempts > 1 {
@@ -186,6 +202,14 @@ func verifC10_Retry() {
 		verifCover("cancelled")
 	}
 	cancel()
+}
+
+// vNowClock: time.Now on the engine's virtual clock (monotonic flavour, as time.Now returns)
+func vNowClock() time.Time {
+	var t time.Time
+	verifSetField(&t, "wall", uint64(1<<63|(4000000000<<30)))
+	verifSetField(&t, "ext", verifClock())
+	return t
 }
 
 // verifC10_RetryClock: the back-off under the engine's virtual clock, with the REAL time.After /
